@@ -658,7 +658,7 @@ class BleDomain(Registry):
         :rtype: Desynchronized
         """
         return BleDomain.bound("desynchronized", self.proto_version)(
-            accesss_address=accesss_address
+            access_address=accesss_address
         )
 
     def create_set_adv_data(self, adv_data: bytes, scan_rsp: bytes = None) -> HubMessage:
